@@ -21,6 +21,9 @@ Generators
               +-2^15 / +-2^30 / extreme (INT_MIN.., ..INT_MAX); empty, identical, aliased, touching and
               nested operands forced with fixed probabilities; "many" mode builds regions of hundreds
               of rectangles
+  sizes       deterministic: and/subtract/isempty/count/iteration on results of exactly 255, 256, 257,
+              511..513, 767..769 rectangles (combs, stacks, grids of isolated pixels): every returned
+              boolean is compared with the model and with the oracle's emptiness
   raw         sraRgnCreateRect with inverted / empty / extreme rectangles (empty region since the
               fix in /repo 9d9d6cd) and their use as operands
   clip        sraClipRect / sraClipRect2 on boundary-heavy arguments
@@ -392,6 +395,60 @@ def gen_raw(rng, n):
     return "\n".join(ls) + "\n"
 
 
+def gen_sizes():
+    """deterministic: results of and / subtract (and sraRgnEmpty, count, iteration) with exactly
+    255, 256, 257, 511, 512, 513, 767, 768, 769 rectangles — combs (one band, N x-spans), stacks
+    (N bands), grids of isolated pixels — so that a boolean result that is derived from a
+    truncated rectangle count (rfbBool is int8_t) is exposed.  The harness oracle compares every
+    returned boolean with the emptiness of the expected pixel set; the model comparison is exact."""
+    marks = (255, 256, 257, 511, 512, 513, 767, 768, 769)
+    scripts = []
+
+    def block(n, cover, away, frame):
+        ls = []
+        # r2 = rectangle covering everything, r3 = rectangle disjoint from everything
+        ls += ["mk r2 %d %d %d %d" % cover, "mk r3 %d %d %d %d" % away, "mk r4 %d %d %d %d" % frame,
+               "count r0", "isempty r0",
+               "dup r1 r0", "and r1 r2", "isempty r1", "count r1",       # result = r0 (n rectangles): TRUE
+               "dup r1 r0", "sub r1 r3", "isempty r1",                    # result = r0: TRUE
+               "dup r1 r0", "and r1 r3", "isempty r1",                    # empty: FALSE
+               "dup r1 r0", "sub r1 r2", "isempty r1",                    # empty: FALSE
+               "dup r1 r0", "and r1 r1",                                  # identical operand
+               "dup r1 r4", "sub r1 r0", "count r1", "isempty r1",        # frame minus pattern
+               "dup r1 r4", "and r1 r0", "count r1",
+               "dup r1 r0", "or r1 r3", "count r1", "isempty r1",
+               "iter r1 1 0", "iter r1 0 1"]
+        return ls
+    # comb: pixels (2i, 0); frame minus comb has n+1 pieces
+    ls = ["empty r0"]
+    for i in range(770):
+        ls += ["mk r9 %d 0 %d 1" % (2 * i, 2 * i + 1), "or r0 r9"]
+        if i + 1 in marks or i + 2 in marks:
+            ls += block(i + 1, (-1, -1, 2 * i + 2, 2), (-9, 5, -3, 9), (-1, 0, 2 * i + 2, 1))
+    scripts.append(("comb", "\n".join(ls) + "\n"))
+    # stack: pixels (0, 2i)
+    ls = ["empty r0"]
+    for i in range(770):
+        ls += ["mk r9 0 %d 1 %d" % (2 * i, 2 * i + 1), "or r0 r9"]
+        if i + 1 in marks or i + 2 in marks:
+            ls += block(i + 1, (-1, -1, 2, 2 * i + 2), (5, -9, 9, -3), (0, -1, 1, 2 * i + 2))
+    scripts.append(("stack", "\n".join(ls) + "\n"))
+    # grids of isolated pixels: 16x16 = 256, 32x16 = 512, 17x15 = 255, 32x24 = 768, and one off each
+    for (w, h) in ((16, 16), (32, 16), (17, 15), (32, 24), (16, 32), (64, 4), (8, 32)):
+        ls = ["empty r0"]
+        for j in range(h):
+            for i in range(w):
+                ls += ["mk r9 %d %d %d %d" % (3 * i, 3 * j, 3 * i + 1, 3 * j + 1), "or r0 r9"]
+        ls += block(w * h, (-1, -1, 3 * w, 3 * h), (-9, -9, -3, -3), (0, 0, 3 * w, 3 * h))
+        # one pixel more / less
+        ls += ["mk r9 %d 0 %d 1" % (3 * w + 2, 3 * w + 3), "or r0 r9"]
+        ls += block(w * h + 1, (-1, -1, 3 * w + 4, 3 * h), (-9, -9, -3, -3), (0, 0, 3 * w + 4, 3 * h))
+        ls += ["pop r0 3", "pop r0 0"]
+        ls += block(w * h - 1, (-1, -1, 3 * w + 4, 3 * h), (-9, -9, -3, -3), (0, 0, 3 * w + 4, 3 * h))
+        scripts.append(("grid %dx%d" % (w, h), "\n".join(ls) + "\n"))
+    return scripts
+
+
 def gen_clip(rng, n):
     ls = []
     for _ in range(n):
@@ -476,6 +533,25 @@ def run(ctx):
         tally(dist, script, impl, nontriv)
         note(f)
         dist["streams"]["corpus"] = dist["streams"].get("corpus", 0) + 1
+
+    # ---- deterministic: boolean results for results of 255 / 256 / 257 / 512 / 768 ... rectangles
+    szres = common.pmap(lambda s: run_pair(ctx, s[1], h, d, "boolean results at 256k rectangles (%s)" % s[0]), gen_sizes())
+    dist["sizes_stream"] = {}
+    for (name, sc), (impl, model, f) in zip(gen_sizes(), szres):
+        evals += len(impl)
+        note(f)
+        ops = [l for l in sc.splitlines()]
+        hits = {}
+        last = {}
+        for op, ob in zip(ops, impl):
+            tk = op.split()
+            if " = " in ob and tk[0] in ("and", "sub"):
+                res, dump = ob.split(" = ", 1)
+                n = int(dump.split()[0])
+                if n and n % 256 == 0:
+                    hits["%s->%d rects:%s" % (tk[0], n, res)] = hits.get("%s->%d rects:%s" % (tk[0], n, res), 0) + 1
+        dist["sizes_stream"][name] = hits
+        nontriv.update(hash((name, op)) for op in ops if op.startswith(("and", "sub")))
 
     # ---- exhaustive small grid
     t0 = time.time()
